@@ -36,6 +36,12 @@ func NamedConf(name string) *Conf {
 			{Path: "root.p", Parent: true},
 			{Path: "root.p.x"},
 		}}
+	case "mcpre": // the preemption layout of spec/MC_YK.tla (MC_YK_pre.cfg)
+		c = &Conf{Valid: true, Preemption: true, Queues: []QConf{
+			{Path: "root.p", Parent: true},
+			{Path: "root.p.x", Guar: r1("memory", 2)},
+			{Path: "root.p.z"},
+		}}
 	case "B":
 		c = &Conf{Valid: true, Queues: []QConf{
 			{Path: "root.a", MaxApps: 2, Max: r1("memory", 3)},
